@@ -965,7 +965,7 @@ void Handler::readEvalFileArguments( const char* arg0)
    assert( (mReadMode & ReadMode::file) == 0);
 
    // have to copy the path since basename() may want to modify it
-   std::unique_ptr< char>  copy( new char[ ::strlen( arg0)]);
+   std::unique_ptr< char[]>  copy( new char[ ::strlen( arg0) + 1]);
 
    ::strcpy( copy.get(), arg0);
 
@@ -998,7 +998,7 @@ void Handler::checkReadEnvVarArgs( const char* arg0)
 
    if (mEnvVarName.empty())
    {
-      std::unique_ptr< char>  copy( new char[ ::strlen( arg0)]);
+      std::unique_ptr< char[]>  copy( new char[ ::strlen( arg0) + 1]);
 
       ::strcpy( copy.get(), arg0);
       mEnvVarName = ::basename( copy.get());
